@@ -39,7 +39,7 @@ func prefills() map[string]*prefill {
 		// keys far apart open new sections (a section spans 2^32 ids); 1,3,2 exercises the in-place sorted insert
 		"empty": {name: "empty", keys: func(func(uint64)) {}, has: func(uint64) bool { return false },
 			uniQ: []uint64{1, 2, 1<<32 + 2},
-			uniT: []uint64{1, 3, 2, 1<<32 + 2, 1<<33 + 3}},
+			uniT: []uint64{1, 2, 1<<32 + 2, 3}},
 		// one section holding exactly `batch` ascending (even) keys: the next new key inside goes to the overflow list, a key past the end opens a section
 		"batch": {name: "batch", keys: func(f func(uint64)) {
 			for i := uint64(1); i <= b; i++ {
@@ -47,7 +47,7 @@ func prefills() map[string]*prefill {
 			}
 		}, has: func(k uint64) bool { return k%2 == 0 && k >= 2 && k <= 2*b },
 			uniQ: []uint64{3, 2*b + 1},
-			uniT: []uint64{3, 2 * b, 2*b + 1, 2*b - 1, 2, 1}},
+			uniT: []uint64{3, 2*b + 1, 2 * b, 2*b - 1}},
 		// one key short of full
 		"batch-1": {name: "batch-1", keys: func(f func(uint64)) {
 			for i := uint64(1); i < b; i++ {
@@ -55,7 +55,7 @@ func prefills() map[string]*prefill {
 			}
 		}, has: func(k uint64) bool { return k%2 == 0 && k >= 2 && k <= 2*(b-1) },
 			uniQ: []uint64{2 * b, 2*b + 2},
-			uniT: []uint64{2 * b, 2*b + 2, 3, 2*b - 1, 2 * (b - 1)}},
+			uniT: []uint64{2 * b, 2*b + 2, 3, 2*b - 1}},
 		// key 1, then 300 descending even keys: the first ~128 are sorted into the values array by the look-back path, the others overflow
 		"desc": {name: "desc", keys: func(f func(uint64)) {
 			f(1)
@@ -64,7 +64,7 @@ func prefills() map[string]*prefill {
 			}
 		}, has: func(k uint64) bool { return k == 1 || (k%2 == 0 && k >= 2 && k <= 600) },
 			uniQ: []uint64{2, 301, 599},
-			uniT: []uint64{2, 301, 599, 600, 300, 601, 1}},
+			uniT: []uint64{2, 301, 599, 600, 300}},
 	}
 }
 
